@@ -40,6 +40,48 @@ type c12Scenario struct {
 	Spec    string   `json:"spec,omitempty"` // "" | custom-error-node | no-auto-error-node
 	Walkers []walker `json:"walkers"`
 	Swaps   int      `json:"swaps,omitempty"`
+	// Derive: the swapper does not install versions prepared beforehand; it derives each new version from the one
+	// in service the documented way - Spec.Copy, edit what was inherited in place, Compile - while walks are in flight
+	Derive bool `json:"derive,omitempty"`
+}
+
+// deriveVersion makes version n out of the specification in service: a copy whose inherited nodes and branches
+// are edited in place until it is what sharedSpec(n) describes, then compiled.
+func deriveVersion(cur *core.Spec, version int) (*core.Spec, error) {
+	target := sharedSpec(version).Raw()
+	nv := cur.Copy(fmt.Sprint(version))
+	nv.ActionErrorBranches, nv.ActionErrorNode, nv.ErrorNode, nv.NoAutoErrorNode = target.ActionErrorBranches, target.ActionErrorNode, target.ErrorNode, target.NoAutoErrorNode
+	for name, tn := range target.Nodes {
+		n, have := nv.Nodes[name]
+		if !have || n == nil {
+			nv.Nodes[name] = tn
+			continue
+		}
+		n.Action, n.ActionSource = tn.Action, tn.ActionSource
+		if tn.Branches == nil || n.Branches == nil {
+			n.Branches = tn.Branches
+			continue
+		}
+		n.Branches.Type = tn.Branches.Type
+		for i, tb := range tn.Branches.Branches {
+			if i < len(n.Branches.Branches) && n.Branches.Branches[i] != nil {
+				b := n.Branches.Branches[i] // the branch object the copy came with
+				b.Pattern, b.Guard, b.GuardSource, b.Target = tb.Pattern, tb.Guard, tb.GuardSource, tb.Target
+			} else {
+				n.Branches.Branches = append(n.Branches.Branches, tb)
+			}
+		}
+		n.Branches.Branches = n.Branches.Branches[:len(tn.Branches.Branches)]
+	}
+	for name := range nv.Nodes {
+		if _, keep := target.Nodes[name]; !keep {
+			delete(nv.Nodes, name)
+		}
+	}
+	if err := nv.Compile(context.Background(), nil, true); err != nil {
+		return nil, err
+	}
+	return nv, nil
 }
 
 type c12Case struct {
@@ -225,10 +267,14 @@ type c12Run struct {
 	begins  [8]int // walker index -> number of completed SetSpec calls when its walk began
 	sets    int
 	specs   []*core.Spec
+	derr    string
 }
 
 //go:norace
 func (r *c12Run) setDone() { r.sets++ }
+
+//go:norace
+func (r *c12Run) deriveFailed(s string) { r.derr = s }
 
 //go:norace
 func (r *c12Run) begin(i int) { r.begins[i] = r.sets }
@@ -258,7 +304,17 @@ func runC12(sc c12Scenario, specs []*core.Spec, prefix, prefixN []int) (*sched.E
 		x.Go("swapper", func() {
 			for i := 1; i <= sc.Swaps; i++ {
 				sched.Yield("before-set")
-				us.SetSpec(specs[i])
+				if sc.Derive {
+					nv, err := deriveVersion(us.Spec(), i+1)
+					if err != nil {
+						r.deriveFailed(err.Error())
+						return
+					}
+					sched.Yield("derived")
+					us.SetSpec(nv)
+				} else {
+					us.SetSpec(specs[i])
+				}
 				r.setDone()
 			}
 		})
@@ -309,10 +365,14 @@ func c12Scenarios(thorough bool) []c12Scenario {
 	out = append(out, c12Scenario{Kind: "swap", Walkers: []walker{ws[0], ws[1]}, Swaps: 1})
 	out = append(out, c12Scenario{Kind: "swap", Walkers: []walker{ws[0], ws[2]}, Swaps: 2})
 	out = append(out, c12Scenario{Kind: "swap", Walkers: []walker{ws[1], ws[5]}, Swaps: 2})
+	// new versions derived from the one in service (Spec.Copy, edits in place, Compile) while walks are in flight
+	out = append(out, c12Scenario{Kind: "swap", Walkers: []walker{ws[0]}, Swaps: 1, Derive: true})
+	out = append(out, c12Scenario{Kind: "swap", Walkers: []walker{ws[0], ws[1]}, Swaps: 2, Derive: true})
+	out = append(out, c12Scenario{Kind: "swap", Walkers: []walker{ws[5], ws[2]}, Swaps: 1, Derive: true})
 	return out
 }
 
-const c12RuleText = "one compiled specification (in four variants: action errors routed to a handler node; a custom ErrorNode name with failing walks arriving at a literal error node the compiled spec lacks; no automatic error node; a node whose action and guard sources arrived after Compile, where every machine is refused - all but the first and the whole race pass with freshly compiled objects per execution; native and ECMAScript actions and guards, succeeding, failing and rejecting, each with yield points; one walker whose context is cancelled at its 3rd tick) walked by 2-3 threads with distinct states and messages; every interleaving at the yields (and, for the updatable spec, at the atomic load/store) with at most k deviations; oracle: each walk's stride-by-stride result equals its solo result (for swaps: its solo result under exactly one version, never an older version than one whose SetSpec had returned before the walk began); deep snapshot of the spec unchanged; race pass: ThreadSanitizer silent. states = scenarios, transitions = scheduler steps, traces = schedules; non-trivial = schedule with at least one deviation."
+const c12RuleText = "one compiled specification (in four variants: action errors routed to a handler node; a custom ErrorNode name with failing walks arriving at a literal error node the compiled spec lacks; no automatic error node; a node whose action and guard sources arrived after Compile, where every machine is refused - all but the first and the whole race pass with freshly compiled objects per execution; native and ECMAScript actions and guards, succeeding, failing and rejecting, each with yield points; one walker whose context is cancelled at its 3rd tick) walked by 2-3 threads with distinct states and messages; every interleaving at the yields (and, for the updatable spec, at the atomic load/store) with at most k deviations; oracle: each walk's stride-by-stride result equals its solo result (for swaps: its solo result under exactly one version, never an older version than one whose SetSpec had returned before the walk began; also with every new version derived from the one in service - Spec.Copy, in-place edits of the inherited nodes and branches, Compile - while walks are in flight); deep snapshot of the spec unchanged; race pass: ThreadSanitizer silent. states = scenarios, transitions = scheduler steps, traces = schedules; non-trivial = schedule with at least one deviation."
 
 // C12: a compiled spec is shared immutable data; spec updates are atomic.
 func C12(c *vh.Ctx) { sharedCheck(c, "C12") }
@@ -346,7 +406,7 @@ func sharedCheck(c *vh.Ctx, prop string) {
 	// fresh: newly compiled specification objects for one execution (race pass and the error-node
 	// variants), so that anything built or memoised on first use is built under contention.
 	fresh := func(sc c12Scenario) []*core.Spec {
-		if !race && sc.Spec == "" {
+		if !race && sc.Spec == "" && !sc.Derive {
 			return specsOf[sc.Spec]
 		}
 		ss, err := buildSpecs(sc.Spec)
@@ -360,6 +420,9 @@ func sharedCheck(c *vh.Ctx, prop string) {
 		before := beforeOf[sc.Spec]
 		if x.Deadlock != "" {
 			out = append(out, [2]string{"deadlock", x.Deadlock})
+		}
+		if r.derr != "" {
+			out = append(out, [2]string{"derived-version-does-not-compile", r.derr})
 		}
 		for wi, w := range sc.Walkers {
 			got, done := r.results[wi], r.done[wi]
